@@ -224,7 +224,24 @@ def _run(ctx, pool):
         random.Random(ctx.seed).shuffle(stallers)
         drop = {json.dumps(o, sort_keys=True) for o in stallers[cap:]}
         chosen = [o for o in chosen if json.dumps(o, sort_keys=True) not in drop]
-    scs = [{"id": i + 1, "configured": o["configured"], "preset": o["preset"], "steps": o["steps"]} for i, o in enumerate(chosen)]
+    # Designated histories (behaviours of the model like every other one; they come first): the binding canaries are cut from
+    # these, so that their construction does not depend on what the seed happened to sample.
+    #   D1  the preset working parrot is refused, the other parrot is accepted
+    #   D2  a randomized hello works against a pinning server, the next Dial must present the same fingerprint (3 copies: ~3.5% of
+    #       the randomized specs are unusable)
+    #   D3  the preset working parrot is STALLED, the other parrot is accepted: the call must go on and succeed
+    def step(accept, stall=(), rmode="refuse", n=1):
+        return {"accept": list(accept), "stall": list(stall), "rmode": rmode, "tcpfail": False, "n": n}
+    P1, P2 = [i for i in IDS if i != RAND][:2]
+    designated = [
+        {"configured": [P1, P2], "preset": P1, "steps": [step([P2])]},
+        {"configured": [RAND], "preset": "-", "steps": [step([], rmode="pin"), step([], rmode="pin")]},
+        {"configured": [RAND], "preset": "-", "steps": [step([], rmode="pin"), step([], rmode="pin")]},
+        {"configured": [RAND], "preset": "-", "steps": [step([], rmode="pin"), step([], rmode="pin")]},
+        {"configured": [P1, P2], "preset": P1, "steps": [step([P2], stall=[P1])]},
+    ]
+    ND = len(designated)
+    scs = [{"id": i + 1, "configured": o["configured"], "preset": o["preset"], "steps": o["steps"]} for i, o in enumerate(designated + chosen)]
     by_id = {s["id"]: s for s in scs}
 
     # ------------------------------------------------------------------ 3. replay on the real Roller (-race), record, judge
@@ -335,7 +352,9 @@ def _run(ctx, pool):
     # canaries about stalled attempts: every attempt has its own timeout
     def stall_then_ok(r):
         s1 = r["steps"][0]; d = s1["dials"][0]
-        return r["id"] in acc and s1["n"] == 1 and d["ret"] == "ok" and len(d["seen"]) >= 2 and d["seen"][0][0] in s1["stall"]
+        # the stalled ID and the one that then works are parrots: a parrot the server accepts MUST succeed (a randomized spec may be unusable)
+        return (r["id"] in acc and s1["n"] == 1 and d["ret"] == "ok" and len(d["seen"]) >= 2 and d["seen"][0][0] in s1["stall"]
+                and all(x[1] == 0 for x in d["seen"]) and d["seen"][-1][0] in s1["accept"])
     sbase = next((r for r in allrows if stall_then_ok(r)), None)
     if sbase is None and not ctx.findings:
         raise vlib.Machinery("vacuity: no accepted history whose first Dial met a stalled ID and then succeeded with another one")
@@ -407,7 +426,8 @@ def _run(ctx, pool):
     sample = [{"configured": r["configured"], "preset": r["preset"],
                "steps": [{"accept": st["accept"], "stall": st["stall"], "rmode": st["rmode"], "tcpfail": st["tcpfail"], "dials": [{"seen": d["seen"], "ret": d["ret"], "conn": d["conn"], "ms": d["ms"]} for d in st["dials"]], "working_after": st["working"], "working_seed": st["wseed"][:8]} for st in r["steps"]]}
               for r in accrows[:2]]
-    cov_d = {"evaluations": ndials, "distinct_nontrivial": len(scs),
+    cov_d = {"evaluations": ndials, "distinct_nontrivial": len({json.dumps([s["configured"], s["preset"], s["steps"]], sort_keys=True) for s in scs}),
+             "designated_histories": ND,
              "rule": "evaluations = Roller.Dial calls made on the real code (loopback TCP, -race); distinct = distinct Dial histories "
                      "(configured set, preset working ID, per step accept set / TCP failure / 1-2 concurrent callers) chosen by TLC "
                      "and judged by TLC (Roller_Trace): shuffles and interleavings are found by TLC, hellos seen by the server, results and WorkingHelloID are bound",
